@@ -771,6 +771,20 @@ func TestCheck(t *testing.T) {
 			}
 			if s > 256 {
 				txs = append(txs, pager.RTx{Mods: []uint32{2, 256, s}, SpillAfter: []int{2}, NewSize: 200, Final: "TRUNCATE", Outcome: "commit"})
+				// A first segment of 63 / 64 / 65 records: with 512-byte sectors 64 records of (page + 8) bytes end exactly on a
+				// sector boundary, so the next segment's header follows without padding.
+				seq := func(a, b uint32) []uint32 {
+					var out []uint32
+					for x := a; x <= b; x++ {
+						out = append(out, x)
+					}
+					return out
+				}
+				if g.sector == 512 {
+					for _, n := range []uint32{63, 64, 65} {
+						txs = append(txs, pager.RTx{Mods: seq(2, n+3), SpillAfter: []int{int(n)}, Final: "DELETE", Outcome: "commit"})
+					}
+				}
 			}
 			for _, tx := range txs {
 				cases = append(cases, Case{Kind: "journal", PageSize: g.ps, Sector: g.sector, Start: s, Tx: tx, Mode: "legit", Only: -1})
